@@ -342,6 +342,10 @@ impl Sched {
         let i = self.gate.lock();
         i.ready.len() + i.threads.values().filter(|t| t.state == TState::Ready).count()
     }
+    /// Ids of the ready tasks (debugging aid).
+    pub fn ready_ids(&self) -> Vec<u64> {
+        self.gate.lock().ready.iter().map(|(id, _)| *id).collect()
+    }
     pub fn live(&self) -> i64 {
         self.gate.lock().live
     }
